@@ -364,6 +364,7 @@ SPEC = {
         "absence of panics in the Rust code for ALL inputs is not a theorem; it is supported by the tie",
         "'does not terminate' is judged in CPU time of the child (10 s quick / 20 s thorough on one input, alone in a fresh child); a wall-clock stall with less CPU time is counted not-run (env-stall)",
         "the stack prediction's two constants (16 KiB base, 1.5 KiB per level of type nesting) are measured on the debug-profile harness, not derived from the code; C08_stack is an arithmetical corollary of C08_depth about the prediction",
+        "codec maximum expansion (Section hypotheses of C08_guard_passes_snappy / _lz4: plain <= 32 x compressed for Snappy, <= 255 x block for LZ4, preamble = plain length) is a fact about library code (snap, lz4_flex): validated by the tie on the real encoders' output of kind Z (constant / short-period fills, 1 KiB .. 4 MiB; max achieved ratios 21.31 / 254.58), not proved",
         "C08_alloc is proved of the model's ghost counter; the driver APPLIES that bound (largest request) and twice it (total; no theorem) to the allocator's measurements",
     ],
     "post": post,
